@@ -67,7 +67,10 @@ def _array_index_aware_key(item):
     numerically: 'a[2].b' comes before 'a[10].b'."""
 
     # re.split() with one group returns the indexes at the odd positions.
-    return [(1, int(s), '') if i % 2 else (0, 0, s)
+    # (length, digits) orders digit strings numerically without converting
+    # them; int() refuses strings of several thousand digits.
+    return [(1, (len(s.lstrip('0')), s.lstrip('0')), '') if i % 2 else
+                                                       (0, (0, ''), s)
                        for i, s in enumerate(RE_HTTP_ARRAY_INDEX.split(item[0]))]
 
 
